@@ -128,7 +128,10 @@ fn new_world(cfg: &Value) -> WorldRun {
                 if n != 0 { cb = cb.add(key(i as i64 + 1), key(n)); }
             }
             let an = if en_a { Animator::<A>::new() } else { Animator::<A>::new().as_disabled() };
-            ent.insert((an, sb.build(), cb.build()));
+            // a chain with the single entry k -> default key is written with the documented shorthand
+            let entries: Vec<(usize, i64)> = cfg["chain"].as_array().unwrap().iter().enumerate().map(|(i, n)| (i, n.as_i64().unwrap())).filter(|e| e.1 != 0).collect();
+            let chain = if entries.len() == 1 && entries[0].1 == 1 { AnimationChain::<K>::reset_after(key(entries[0].0 as i64 + 1)) } else { cb.build() };
+            ent.insert((an, sb.build(), chain));
         } else {
             let id = cfg["tlA"].as_i64().unwrap();
             let an = if id == 0 { Animator::<A>::new() } else { pool_with!(A, id, tl => Animator::<A>::with_timeline(tl)) };
